@@ -60,9 +60,10 @@ def run(tier, seed, drv):
         procs = [""] + [c["name"] for c in scn["components"]]
         base = run_scenario(scn, bus="sync")
         SC.check_run(scn, base, drv, res, monitors_on=("initial_tick",), corr=("sim",), case_extra={"bus": "sync"})
-        vectors = list(itertools.product(range(maxd + 1), repeat=len(procs)))
+        dvals = (0, 1, 3) if tier == "quick" else (0, 1, 2, 3, 6)
+        vectors = list(itertools.product(dvals, repeat=len(procs)))
         if tier == "quick" and len(vectors) > 90:
-            vectors = [v for v in vectors if rng.random() < 90 / len(vectors)] + [tuple([maxd] + [0] * (len(procs) - 1)), tuple([0] + [maxd] * (len(procs) - 1))]
+            vectors = [v for v in vectors if rng.random() < 90 / len(vectors)] + [tuple([3] + [0] * (len(procs) - 1)), tuple([0] + [3] * (len(procs) - 1))]
         for vec in vectors:
             delays = dict(zip(procs, vec))
             for b in ("sync", "held"):
@@ -79,13 +80,13 @@ def run(tier, seed, drv):
         for late in range(2, maxd + 3):
             for who in [c["name"] for c in S.devices(scn)][:3]:
                 for at in range(1, late + 1):
-                    s2 = dict(copy.deepcopy(scn), start_delays={"": late}, stims=[{"step": 1 + at, "comp": who}], n_ticks=4)
+                    s2 = dict(copy.deepcopy(scn), start_delays={"": late}, stims=[{"step": 1 + at, "comp": who}], n_ticks=4, t0=(0 if (late + at) % 2 else 7_000_000))
                     run_ = run_scenario(s2, bus="sync")
                     case = {"scenario": s2, "bus": "sync", "early_interrupt": True}
                     raised = [e for e in run_["trace"].of("raise") if e.get("ok")]
                     res.case(f"{ci}:early:{late}:{who}:{at}", nontrivial=bool(raised))
                     res.count("early-interrupt" if raised else "early-interrupt-not-raised")
-                    n = SC.check_run(s2, run_, drv, res, monitors_on=("initial_tick", "ticker"), corr=("ticker",), case_extra=case)
+                    n = SC.check_run(s2, run_, drv, res, monitors_on=("initial_tick", "ticker", "tick_times"), corr=("ticker",), case_extra=case)
                     if n == 0 and raised:
                         # the interrupt must be served: an update of `who` that begins after the raise
                         ups = [u for u in run_["trace"].of("update") if u["comp"] == who and u["n"] > raised[0]["n"]]
@@ -94,11 +95,11 @@ def run(tier, seed, drv):
                         # ... and the run proceeds as if all had started together: in a simultaneous start
                         # an interrupt raised that early arrives during the initial tick and is served by a
                         # tick of its own at the initial time; the late scheduler must do the same
-                        n_at_t0 = len([u for u in run_["trace"].of("update") if u["comp"] == who and u["time"] == scn.get("t0", 0)])
-                        same = run_scenario(dict(copy.deepcopy(scn), stims=s2["stims"], n_ticks=4), bus="sync")
+                        n_at_t0 = len([u for u in run_["trace"].of("update") if u["comp"] == who and u["time"] == s2["t0"]])
+                        same = run_scenario(dict(copy.deepcopy(scn), stims=s2["stims"], n_ticks=4, t0=s2["t0"]), bus="sync")
                         raised_same = [e for e in same["trace"].of("raise") if e.get("ok")]
                         if raised_same:
-                            m_at_t0 = len([u for u in same["trace"].of("update") if u["comp"] == who and u["time"] == scn.get("t0", 0)])
+                            m_at_t0 = len([u for u in same["trace"].of("update") if u["comp"] == who and u["time"] == s2["t0"]])
                             if n_at_t0 < m_at_t0:
                                 res.violate(V("start-order-dependent", f"{who}: {m_at_t0} updates at the initial time when all start together, {n_at_t0} when the scheduler starts {late} steps late (early interrupt not served by its own tick)",
                                               site="early-interrupt", comp=who), case)
